@@ -144,6 +144,23 @@ def Statement_conc_isolation : Prop :=
     (∀ h, h ∉ op.regTargets s.1 →
         (h ∈ (Conc.cgGraphs s.1 (Conc.step s.1 s.2 op)).2 ↔ h ∈ (Conc.cgGraphs s.1 s.2).2))
 
+/-- ⊢ The scenario the property's `why_tests_cant` names, over the concrete store: after ANY history — hence
+    for every order in which graphs were attached to the triple and whatever the default-context
+    compression made of its context set — a triple held by graph `h` survives its removal (exact or by
+    pattern, through the dataset or through a view, or by `remove_context` / `remove_graph`) from any other
+    graph `g`; and it stays in the merged view: `len` does not drop below the triples `h` holds, and a read
+    of the union still yields it. -/
+def Statement_conc_shared_triple_survives : Prop :=
+  ∀ (cfg : Cfg) (sops : List SOp) (t : Triple) (g h : Key) (p : TPat),
+    let s := Conc.after cfg sops
+    g ≠ h → Conc.content s.2 h t →
+      Conc.content (Conc.step s.1 s.2 (.remove (.quad p (.ident g)))) h t ∧
+      Conc.content (Conc.step s.1 s.2 (.remove (.quad p (.view g)))) h t ∧
+      Conc.content (Conc.step s.1 s.2 (.vremove g p)) h t ∧
+      Conc.content (Conc.step s.1 s.2 (.removeContext g)) h t ∧
+      Conc.content (Conc.step s.1 s.2 (.removeGraph g)) h t ∧
+      t ∈ Conc.obsTriples { s.1 with du := true } (Conc.step s.1 s.2 (.remove (.quad p (.ident g)))) TPat.all none
+
 /-- ⊢ Union view and empty-or-unknown over the concrete store, after every history: a read without a
     graph is the union of the graphs `graphs()` lists (each triple once) under `default_union`, the
     default graph otherwise; a read (`triples`, `in`, `quads`, `triples_choices`) restricted to a graph
@@ -325,6 +342,27 @@ theorem conc_isolation : Statement_conc_isolation := by
     rw [(Conc.rel_cgGraphs c hR').2.2, (Conc.rel_cgGraphs c hR).2.2]
     exact (registry_isolation.1 c ma op h hh).1
 
+theorem conc_shared_triple_survives : Statement_conc_shared_triple_survives := by
+  intro cfg sops t g h p
+  have hI := conc_isolation cfg sops
+  obtain ⟨_, hR⟩ := conc_reach cfg sops
+  simp only at hI ⊢
+  intro hgh hc
+  have hh : h ∉ [g] := by
+    simp only [List.mem_singleton]
+    exact fun e => hgh e.symm
+  have k1 := ((hI (.remove (.quad p (.ident g)))).1 [g] rfl h hh t).mpr hc
+  refine ⟨k1, ((hI (.remove (.quad p (.view g)))).1 [g] rfl h hh t).mpr hc,
+    ((hI (.vremove g p)).1 [g] rfl h hh t).mpr hc, ((hI (.removeContext g)).1 [g] rfl h hh t).mpr hc,
+    ((hI (.removeGraph g)).1 [g] rfl h hh t).mpr hc, ?_⟩
+  have hR' := Conc.rel_step (Conc.after cfg sops).1 hR (.remove (.quad p (.ident g)))
+  unfold Conc.obsTriples
+  rw [Conc.mem_ctriples hR']
+  have hu := (union_view { (Conc.after cfg sops).1 with du := true }
+    (step (Conc.after cfg sops).1 (runS (cfg, Mem.empty) sops).2 (.remove (.quad p (.ident g)))) TPat.all).1 t
+  rw [if_pos rfl] at hu
+  exact hu.mpr ⟨matches_all t, h, (Conc.ccontent_iff hR' h t).mp k1⟩
+
 theorem eq_nil_of_mem_iff {α : Type} {l1 l2 : List α} (h : ∀ x, x ∈ l1 ↔ x ∈ l2) (e : l2 = []) : l1 = [] := by
   apply List.eq_nil_iff_forall_not_mem.mpr
   intro x hx
@@ -476,6 +514,9 @@ example : (Conc.after exDs exSOps).1.du = true ∧ (Conc.after exDs exSOps).2.er
   decide
 -- the context bookkeeping is really exercised: a default context set and two explicit (uncompressed) entries
 example : (Conc.after exDs exSOps).2.dflt = some [some 99, none] ∧ (Conc.after exDs exSOps).2.tctx.length = 2 := by decide
+-- the hypothesis of `conc_shared_triple_survives` is met: (1,10,20) is held by graphs 99 and 91
+example : (1, 10, 20) ∈ Conc.vTriples (Conc.after exDs exSOps).2 91 TPat.all ∧
+    (1, 10, 20) ∈ Conc.vTriples (Conc.after exDs exSOps).2 99 TPat.all := by decide
 -- remove_graph 91 then re-add: only the new triple; a fresh name 77
 example : Conc.vTriples (Conc.step exDs (Conc.step exDs (Conc.after exDs exSOps).2 (.removeGraph 91))
     (.add (3, 11, 22) (some (.ident 91)))) 91 TPat.all = [(3, 11, 22)] ∧
